@@ -382,7 +382,7 @@ def spec_env(window):
             "iff": lambda a, b: bool(a) == bool(b), "tag": tag, "truthy": bool, "str_of": lambda v: f"{v}",
             "strip": lambda s: s.strip(), "seq_contains": lambda c, x: x in c, "same": lambda a, b: a is b or a == b,
             "is_fresh": lambda v: True, "strictly_increasing": lambda xs: all(a < b for a, b in zip(xs, xs[1:])),
-            "iota": lambda k: list(range(max(0, k))), "int_of": lambda s_: int(s_),
+            "iota": lambda k: list(range(max(0, k))), "split_dot": lambda s_: s_.split("."), "int_of": lambda s_: int(s_), "float_of": lambda s_: float(s_),
             "fs_exists": os.path.exists, "fs_isfile": os.path.isfile, "fs_isdir": os.path.isdir, "path_join": os.path.join,
             "path_basename": os.path.basename, "path_dirname": os.path.dirname,
             "prefix_sum": lambda xs, f, k: sum(_deep_get(x, f) for x in xs[:max(0, k)]), "ufun_bool": ufun, "ufun_val": ufun, "ufun_int": ufun, "ufun_str": ufun}
